@@ -13,7 +13,7 @@ from .props import PROPS, UNITS
 
 ROOT = os.path.dirname(os.path.dirname(os.path.abspath(__file__)))
 REPO = os.environ.get('REPO', '/repo')
-BUILD = os.path.join(ROOT, 'build')
+BUILD = os.path.join(ROOT, 'build', 'p%d' % os.getpid()) if os.environ.get('VERIF_PRIVATE_BUILD') else os.path.join(ROOT, 'build')
 CACHE = os.path.join(ROOT, 'cache')
 LABEL = re.compile(r'\[(C\d\d[A-Za-z0-9_.\-]*)\]')
 
@@ -144,9 +144,12 @@ def run_unit(unit, tier):
                         verified=res.get('verified'))
     groups = clause_groups(g)
     fnames = set()
+    labs_by_fn = {}
+    for rec in groups.values():
+        labs_by_fn.setdefault(rec['fn'], set()).update(rec['labels'])
     for f in g['functions']:
         fnames.add(f['name'])
-        labs = sorted(set(l for (_, c, _) in f['clauses'] for l in LABEL.findall(c)))
+        labs = sorted(labs_by_fn.get(f['name'], set()))
         out['functions'].append(dict(name=f['name'], file=f['file'], line=f['line'], body_sha=f['hash'],
                                      rewrites=sorted(set('%s: %s' % (r[0], r[1]) for r in f['log'])), labels=labs,
                                      nclauses=len([1 for (sec, _, _) in f['clauses'] if sec in ('ensures', 'invariant', 'invariant_except_break')])))
